@@ -392,6 +392,12 @@ func (r *rpcStub) BroadcastTxSync(_ context.Context, txBytes cmttypes.Tx) (*core
 		r.w.lateCalls++ // the submitter has moved on already: nobody reads this answer (a node still accepts the tx)
 	}
 	o := r.w.outcomeAt(at)
+	// the answer is decided, and an acceptance is booked, in this one critical section: the submission this tx belongs
+	// to may be over (and the books of the next one opened) a moment later
+	if mine && r.second == 0 && o != oBcastErr && o != oBcastCache && o != oBcastCode && o != oBcastOOG {
+		r.w.accepted[at]++
+		r.w.acceptLog = append(r.w.acceptLog, fmt.Sprintf("[seq %d base %d attempt %d running %d node %s outcome %s]", seq, r.w.subBase, at, r.w.attempt.Load(), nodeKindName[r.kind], outcomeName[o]))
+	}
 	r.w.mu.Unlock()
 	if r.second == 1 {
 		return nil, fmt.Errorf("connection refused")
@@ -413,10 +419,6 @@ func (r *rpcStub) BroadcastTxSync(_ context.Context, txBytes cmttypes.Tx) (*core
 	case oBcastOOG:
 		return &coretypes.ResultBroadcastTx{Code: sdkerrors.ErrOutOfGas.ABCICode(), Codespace: sdkerrors.RootCodespace, Log: "out of gas", Hash: h}, nil
 	}
-	r.w.mu.Lock()
-	r.w.accepted[at]++
-	r.w.acceptLog = append(r.w.acceptLog, fmt.Sprintf("[seq %d base %d attempt %d running %d node %s outcome %s]", seq, r.w.subBase, at, r.w.attempt.Load(), nodeKindName[r.kind], outcomeName[o]))
-	r.w.mu.Unlock()
 	return &coretypes.ResultBroadcastTx{Code: 0, Hash: h}, nil
 }
 
